@@ -45,6 +45,10 @@ def main():
     def lindblad_system(n):
         A = rng.randn(n, n)
         H = (A + A.T) / 2 * 0.05
+        if rng.rand() < 0.5:
+            # complex Hermitian
+            Ai = rng.randn(n, n) * 0.05
+            H = H + 1j * (Ai - Ai.T) / 2
         ham = qr.Hamiltonian(data=H)
         ops, rates, Ks = [], [], []
         for k in range(2):
